@@ -139,10 +139,24 @@ register('C12', 'other',
          'from every instance show the same set of running instances and the same running state [refuted for a last '
          'report STOPPING: known finding C12-stopping-snapshot; proved when no last report is STOPPING]; (2) feeding a '
          'report as an event or as a handshake snapshot to equal views yields equal views. The lemmas rest on the '
-         'postconditions proved for add_info / update_info in C11.',
+         'postconditions proved for add_info / update_info in C11. (3) Acceptance guards on the real source of context.py: '
+         'Context.on_process_state_event applies an event IFF the local status of the sender is CHECKED or RUNNING and the '
+         'process is known (with a report of the sender unless forced): control-flow facet (contracts/c12_events.py: '
+         'otherwise nothing written, nothing published, None returned; else ONE update_info of that process under the '
+         "identifier of the sender's status, the process returned) and report facet (contracts/c12_report.py: the C11 / C15 "
+         'preconditions hold at the call sites, the report of the sender carries the state / expected flag of the event, '
+         'listing_transition); Context.on_process_disability_event: same guard, disabled flag of the report of the sender. '
+         'SupervisorProxy.check_instance (C13) forwards the handshake snapshot only for an AUTHORIZED peer.',
          not_decided=['agreement across instances under all interleavings / fault prefixes (delivery is outside)',
-                      'truth of the view with respect to the remote Supervisors'],
-         assumptions=['the C11 contracts (proved by ./check C11)'])
+                      'truth of the view with respect to the remote Supervisors',
+                      'Context.on_process_removed_event, Context.load_processes(check_state) and SupervisorProxy.publish '
+                      '(has_active_state filter) are not under contract',
+                      'the control-flow facet of on_process_state_event does not model the heap writes of its call-outs '
+                      '(effect-only abstractions, see contracts/c12_events.py); what they write is in the report facet'],
+         assumptions=['the C11 contracts (proved by ./check C11)', 'ApplicationStatus.update (proved by ./check C15)',
+                      'process state events never name the process * (built by SupervisorListener.on_process_state / '
+                      'force_process_state from a real process name)',
+                      'external publisher / statistics collector / serial() call-outs touch nothing of the instance'])
 register('C16', 'proof',
          'Scoped proof: the implicit exception-freedom obligations (one safe: obligation per partial operation - subscript, '
          'attribute of a possibly-None value, min/max of empty, enum conversion, explicit raise - plus the call-site '
@@ -281,19 +295,38 @@ register('C13', 'proof',
          'admits (CHECKED) only on AUTHORIZED, goes back to STOPPED on UNKNOWN, and leaves an ISOLATED status ISOLATED; '
          'on_identification_event changes no instance state and has no effect outside the CHECKING window; '
          'Context.invalidate(fence=True) => ISOLATED unless local. Permanence: C07 (empty ISOLATED row, single writer, '
-         'state setter contract).',
+         'state setter contract). Handshake decision (third wave, sequential code of the proxy thread): '
+         'SupervisorProxy._is_authorized answers AUTHORIZED only when the remote get_instance_info answer does not give the '
+         'local instance ISOLATED (or an unknown code) and the remote get_strategies answer equals the local one on every '
+         'key (auto-fencing, starting, conciliation, supvisors_failure), NOT_AUTHORIZED iff seen ISOLATED once the remote '
+         'answered; SupervisorProxy.check_instance hands its timestamp over before any XML-RPC / notification, pushes ONE '
+         'AUTHORIZATION notification carrying that same timestamp (what lets on_authorization discard a stale handshake), '
+         'the decision of _is_authorized and the source of the peer, and forwards state & modes / process snapshot only '
+         'for an AUTHORIZED peer; _transfer_network_info stamps the IDENTIFICATION notification with the same timestamp. '
+         'Events only from admitted peers: Context.on_process_state_event / on_process_disability_event change and publish '
+         'nothing unless the sender is CHECKED or RUNNING (contracts/c12_events.py, shared with C12).',
          not_decided=['reciprocity as a two-party fact (needs the real answer of the remote instance)',
                       'claimed origin vs real sender (transport)',
                       'listener.read_publication / read_notification (json decoding), SupervisorProxyServer.get_proxy / '
-                      'push_* (threads, locks) and SupervisorProxy._is_authorized (XML-RPC) are not under contract in this '
-                      'round: the frame "invalid origin => nothing modified, nothing emitted" is proved at the level of '
-                      'Context.is_valid only',
-                      'process state / removal / disability events only from CHECKED or RUNNING peers: C12'],
+                      'push_* (threads, locks) are not under contract: the frame "invalid origin => nothing modified, nothing '
+                      'emitted" is proved at the level of Context.is_valid only',
+                      'whether a Fault / no answer to get_strategies yields INCONSISTENT rather than UNKNOWN is not stated '
+                      '(only: AUTHORIZED requires both answers); the interleaving of the proxy thread with the main thread',
+                      'Context.on_process_removed_event (loop over the processes of the instance) is not under contract: '
+                      'its CHECKED / RUNNING guard is the same test but is not proved',
+                      'that the handshake timestamp is a clock reading not older than the call (only: it is fixed before '
+                      'any XML-RPC and is the one both notifications carry)'],
          assumptions=['SupvisorsInstanceId.is_valid (address match) is an external predicate',
                       'SupvisorsMapper.filter resolves identifier lists as documented (assumed contract); mapper closure '
                       '(nick identifiers and stereotypes name known instances)',
                       'structural validity of the per-instance maps (valid_structure / distinct_entries, contracts/c07.py)',
-                      'XML-RPC answers of the remote are what its RPCInterface returns'])
+                      'XML-RPC answers of the remote are what its RPCInterface returns: get_instance_info / get_strategies '
+                      '/ get_network_info / get_instance_state_modes / get_all_local_process_info of the client are assumed '
+                      'externals (contracts/assumed_transport.py), pure functions of the endpoint returning a symbolic payload '
+                      '(get_instance_info: at least one payload with a statecode) or raising Fault / OSError; '
+                      'SupervisorProxy._get_proxy returns the client of that endpoint',
+                      'records only hold keys declared in contracts/shapes.py REC_KEYS, or are flagged by the ghost '
+                      '<undeclared> key (record == dict literal)'])
 register('C02', 'proof',
          'Per-transition proof on the real source. (1) Single writer: syntactic scan of every assignment to an attribute '
          '`state` of the package + verified frames (next()/exit()/on_instance_state_event never write the local state). '
